@@ -63,14 +63,14 @@ Proof. apply all_objs_remove_from. Qed.
 
 (* deletion: nothing is added, and whatever disappears sits at the position of the public key found first, or of the private key found after that *)
 Theorem delete_removes_only_found st label force answer st' r :
-  key_delete st label force answer = OK (st', r) ->
+  key_delete st label force answer = (st', r) ->
   incl (all_objs st') (all_objs st) /\
   forall x, In x (all_objs st) -> ~ In x (all_objs st') ->
     exists k, (get_p11_key st label true None = OK (Some k) /\ pk_pub k <> None /\ pos_of x = (pk_module k, pk_slot k, pk_handle k)) \/
               (exists st1, incl (all_objs st1) (all_objs st) /\ get_p11_key st1 label false None = OK (Some k) /\ pos_of x = (pk_module k, pk_slot k, pk_handle k)).
 Proof.
-  unfold key_delete. intros H. apply bind_ok_inv in H as (e & He & H). destruct e as [k|].
-  2:{ injection H as <- <-. split; [apply incl_refl|]. intros x H1 H2. contradiction. }
+  unfold key_delete. intros H. destruct (get_p11_key st label true None) as [[k|]|c] eqn:He.
+  2,3: injection H as <- <-; split; [apply incl_refl|]; intros x H1 H2; contradiction.
   destruct (negb force && negb (text_eqb (strip_newlines answer) YES)).
   { injection H as <- <-. split; [apply incl_refl|]. intros x H1 H2. contradiction. }
   set (st1 := match pk_pub k with Some _ => remove_handle st (pk_module k) (pk_slot k) (pk_handle k) | None => st end) in *.
@@ -79,13 +79,14 @@ Proof.
   assert (H1' : forall x, In x (all_objs st) -> ~ In x (all_objs st1) -> pk_pub k <> None /\ pos_of x = (pk_module k, pk_slot k, pk_handle k)).
   { subst st1. destruct (pk_pub k) as [pt|]; [|intros x Hx Hn; contradiction]. intros x Hx Hn. split; [discriminate|].
     rewrite remove_handle_exact in Hn. apply at_pos_spec. destruct (at_pos _ x) eqn:E; [reflexivity|]. exfalso. apply Hn. apply filter_In. rewrite E. auto. }
-  apply bind_ok_inv in H as (p & Hp & H). destruct p as [pk|].
+  destruct (get_p11_key st1 label false None) as [[pk|]|c] eqn:Hp.
   - injection H as <- <-. rewrite remove_handle_exact. split.
     + intros x Hx. apply filter_In in Hx as [Hx _]. apply H1. exact Hx.
     + intros x Hx Hn. destruct (at_pos (pk_module pk, pk_slot pk, pk_handle pk) x) eqn:E.
       * exists pk. right. exists st1. split; [exact H1|]. split; [exact Hp|]. apply at_pos_spec. exact E.
       * exists k. left. assert (Hout : ~ In x (all_objs st1)). { intros Hin. apply Hn. apply filter_In. rewrite E. auto. }
         destruct (H1' x Hx Hout) as [Ha Hb]. auto.
+  - injection H as <- <-. split; [exact H1|]. intros x Hx Hn. exists k. left. destruct (H1' x Hx Hn) as [Ha Hb]. auto.
   - injection H as <- <-. split; [exact H1|]. intros x Hx Hn. exists k. left. destruct (H1' x Hx Hn) as [Ha Hb]. auto.
 Qed.
 
@@ -211,7 +212,7 @@ Qed.
 (* on a token whose objects have distinct positions (module, slot, handle): deletion removes only objects that carry the label,
    and of these only a public and a private one; every other object stays *)
 Theorem delete_removes_only_labelled st label force answer st' r :
-  NoDup (map pos_of (all_objs st)) -> key_delete st label force answer = OK (st', r) ->
+  NoDup (map pos_of (all_objs st)) -> key_delete st label force answer = (st', r) ->
   incl (all_objs st') (all_objs st) /\
   forall x, In x (all_objs st) -> ~ In x (all_objs st') ->
     o_label (snd x) = label /\ (o_cls (snd x) = CKO_PUBLIC \/ o_cls (snd x) = CKO_PRIVATE).
@@ -226,17 +227,34 @@ Qed.
 
 (* a confirmed deletion of a complete pair removes the public object that was found *)
 Theorem delete_confirmed_removes_public st label force answer st' r k x :
-  key_delete st label force answer = OK (st', r) -> (force = true \/ strip_newlines answer = YES) ->
+  key_delete st label force answer = (st', r) -> (force = true \/ strip_newlines answer = YES) ->
   get_p11_key st label true None = OK (Some k) -> pk_pub k <> None ->
   pos_of x = (pk_module k, pk_slot k, pk_handle k) -> ~ In x (all_objs st').
 Proof.
-  unfold key_delete. intros H Hc Hk Hpub Hpos. rewrite Hk in H. cbn [bind] in H.
+  unfold key_delete. intros H Hc Hk Hpub Hpos. rewrite Hk in H.
   assert (negb force && negb (text_eqb (strip_newlines answer) YES) = false) as E.
   { destruct Hc as [-> | ->]; [reflexivity|]. rewrite text_eqb_refl. apply andb_false_r. }
   rewrite E in H. destruct (pk_pub k) as [pt|]; [|contradiction].
   assert (Hgone : forall st2, incl (all_objs st2) (all_objs (remove_handle st (pk_module k) (pk_slot k) (pk_handle k))) -> ~ In x (all_objs st2)).
   { intros st2 Hi Hin. apply Hi in Hin. rewrite remove_handle_exact in Hin. apply filter_In in Hin as [_ Hf].
     apply at_pos_spec in Hpos. rewrite Hpos in Hf. discriminate Hf. }
-  apply bind_ok_inv in H as (p & Hp & H). destruct p as [pk|]; injection H as <- _; apply Hgone; [|apply incl_refl].
+  destruct (get_p11_key (remove_handle st (pk_module k) (pk_slot k) (pk_handle k)) label false None) as [[pk|]|c]; injection H as <- _; apply Hgone; try apply incl_refl.
   rewrite (remove_handle_exact (remove_handle st _ _ _)). intros y Hy. apply filter_In in Hy as [Hy _]. exact Hy.
+Qed.
+
+(* a confirmed deletion that reports success has removed the private object it found as well: both halves of the pair are gone *)
+Theorem delete_success_removes_both st label force answer st' :
+  key_delete st label force answer = (st', OK true) -> (force = true \/ strip_newlines answer = YES) ->
+  exists k st1 pk, get_p11_key st label true None = OK (Some k) /\
+    st1 = (match pk_pub k with Some _ => remove_handle st (pk_module k) (pk_slot k) (pk_handle k) | None => st end) /\
+    get_p11_key st1 label false None = OK (Some pk) /\
+    all_objs st' = filter (fun x => negb (at_pos (pk_module pk, pk_slot pk, pk_handle pk) x)) (all_objs st1).
+Proof.
+  unfold key_delete. intros H Hc. destruct (get_p11_key st label true None) as [[k|]|c]; [|discriminate H|discriminate H].
+  assert (negb force && negb (text_eqb (strip_newlines answer) YES) = false) as E.
+  { destruct Hc as [-> | ->]; [reflexivity|]. rewrite text_eqb_refl. apply andb_false_r. }
+  rewrite E in H.
+  set (st1 := match pk_pub k with Some _ => remove_handle st (pk_module k) (pk_slot k) (pk_handle k) | None => st end) in *.
+  destruct (get_p11_key st1 label false None) as [[pk|]|c] eqn:Hp; [|discriminate H|discriminate H].
+  injection H as <-. exists k, st1, pk. repeat split; auto. apply remove_handle_exact.
 Qed.
